@@ -1487,8 +1487,9 @@ func TestVerifC09(t *testing.T) {
 
 // c09Statuses is the answer alphabet of every request kind: 1xx the client surfaces, every flavour
 // of 2xx, redirects net/http follows (301/302/303/307/308, depending on method and body) and 3xx
-// it does not (300/304/305/399), 4xx, 5xx; each with or without a Location header.
-var c09Statuses = []int{100, 101, 199, 200, 201, 202, 204, 206, 300, 301, 302, 303, 304, 305, 307, 308, 399, 400, 401, 404, 409, 500, 503}
+// it does not (300/304/305/399), 4xx, 5xx; each with or without a Location header.  Status 0 is NO answer:
+// the transport fails (RoundTrip returns an error).
+var c09Statuses = []int{0, 100, 101, 199, 200, 201, 202, 204, 206, 300, 301, 302, 303, 304, 305, 307, 308, 399, 400, 401, 404, 409, 500, 503}
 
 type c09Resp1 struct {
 	status int
@@ -1525,6 +1526,14 @@ type c09PushReg struct {
 	events  []c09PushEvent
 	sched   []int
 	unknown []string
+	// the answers actually given, per exchange (the oracle line is built from these: after a
+	// cancellation every request fails whatever the script says)
+	gpost, gput [][]c09Resp1
+	gman        []c09Resp1
+	nreq        int
+	cancelAt    int // the context of the push is cancelled when the cancelAt-th request arrives (-1: never)
+	cancel      context.CancelFunc
+	cancelled   bool
 }
 
 func c09Next(script []c09Resp1, i *int) c09Resp1 {
@@ -1568,15 +1577,33 @@ func (r *c09PushReg) RoundTrip(req *http.Request) (*http.Response, error) {
 	}
 	var a c09Resp1
 	var next string
+	if r.nreq == r.cancelAt && r.cancel != nil {
+		r.cancel()
+		r.cancelled = true
+	}
+	r.nreq++
+	gone := req.Context().Err() != nil
 	switch {
 	case layer == -1:
 		a = c09Next(r.man, &r.mi)
+		if gone {
+			a = c09Resp1{0, false}
+		}
+		r.gman = append(r.gman, a)
 		next = fmt.Sprintf("http://example.com/hop/m/%d", r.mi)
 	case upload:
 		a = c09Next(r.put[layer], &r.ui[layer])
+		if gone {
+			a = c09Resp1{0, false}
+		}
+		r.gput[layer] = append(r.gput[layer], a)
 		next = fmt.Sprintf("http://upload.example.com/hop/u/%d/%d", layer, r.ui[layer])
 	default:
 		a = c09Next(r.post[layer], &r.pi[layer])
+		if gone {
+			a = c09Resp1{0, false}
+		}
+		r.gpost[layer] = append(r.gpost[layer], a)
 		next = fmt.Sprintf("http://example.com/hop/p/%d/%d", layer, r.pi[layer])
 		if a.status/100 == 2 {
 			next = fmt.Sprintf("http://upload.example.com/up/%d", layer) // the upload URL
@@ -1585,6 +1612,12 @@ func (r *c09PushReg) RoundTrip(req *http.Request) (*http.Response, error) {
 	r.events = append(r.events, c09PushEvent{layer, upload, req.Method, a.status, a.loc})
 	if layer >= 0 {
 		r.sched = append(r.sched, layer)
+	}
+	if a.status == 0 {
+		if gone {
+			return nil, context.Cause(req.Context())
+		}
+		return nil, errors.New("scripted transport error")
 	}
 	hdr := map[string]string{}
 	if a.loc {
@@ -1656,8 +1689,8 @@ func c09PushCase(t *testing.T, out *zzverif.Out, rng *zzverif.Rng, dir, tag stri
 		post := []c09Resp1{zzverif.Pick(rng, []c09Resp1{upload, upload, has, {201, true}})}
 		var put []c09Resp1
 		if faulty && rng.Chance(1, 2) {
-			post = c09GenExchange(rng, []c09Resp1{upload, has, {500, false}, {307, false}})
-			put = c09GenExchange(rng, []c09Resp1{{201, false}, {200, false}, {500, false}, {307, true}, {308, true}, {304, false}})
+			post = c09GenExchange(rng, []c09Resp1{upload, has, {500, false}, {307, false}, {0, false}})
+			put = c09GenExchange(rng, []c09Resp1{{201, false}, {200, false}, {500, false}, {307, true}, {308, true}, {304, false}, {0, false}})
 		}
 		reg.post = append(reg.post, post)
 		reg.put = append(reg.put, put)
@@ -1665,7 +1698,7 @@ func c09PushCase(t *testing.T, out *zzverif.Out, rng *zzverif.Rng, dir, tag stri
 		layers = append(layers, &Layer{Digest: d, Size: int64(len(data))})
 	}
 	if rng.Chance(1, 4) {
-		reg.man = c09GenExchange(rng, []c09Resp1{{200, false}, {201, false}, {500, false}, {304, false}, {307, false}})
+		reg.man = c09GenExchange(rng, []c09Resp1{{200, false}, {201, false}, {500, false}, {304, false}, {307, false}, {0, false}})
 	}
 	if exhaustive {
 		ph, rest := idx/(len(c09Statuses)*2), idx%(len(c09Statuses)*2)
@@ -1682,6 +1715,14 @@ func c09PushCase(t *testing.T, out *zzverif.Out, rng *zzverif.Rng, dir, tag stri
 		out.Count("push_exhaustive_first_answer")
 	}
 	reg.pi, reg.ui = make([]int, n), make([]int, n)
+	reg.gpost, reg.gput = make([][]c09Resp1, n), make([][]c09Resp1, n)
+	reg.cancelAt = -1
+	if !exhaustive && rng.Chance(1, 8) {
+		// the caller's context ends when the k-th physical request arrives: that request and every later
+		// one (of any layer goroutine, and the manifest PUT) fails without an answer
+		reg.cancelAt = rng.Range(0, 2*n+2)
+		out.Count("push_context_cancelled_at_some_request")
+	}
 	mdata, _ := json.Marshal(&Manifest{Layers: layers})
 	md := c09Dig(mdata)
 	if err := blob.PutBytes(c, md, mdata); err != nil {
@@ -1692,7 +1733,13 @@ func c09PushCase(t *testing.T, out *zzverif.Out, rng *zzverif.Rng, dir, tag stri
 	}
 	streams := zzverif.Pick(rng, []int{1, 2, -1})
 	rc := &Registry{Cache: c, HTTPClient: &http.Client{Transport: reg}, MaxStreams: streams}
-	err = rc.Push(context.Background(), "http://example.com/library/push", nil)
+	pctx, pcancel := context.WithCancel(context.Background())
+	reg.cancel = pcancel
+	err = rc.Push(pctx, "http://example.com/library/push", nil)
+	pcancel()
+	if reg.cancelled {
+		out.Count("push_context_cancelled_before_push_ended")
+	}
 	res := "ok"
 	if err != nil {
 		res = "err"
@@ -1704,18 +1751,22 @@ func c09PushCase(t *testing.T, out *zzverif.Out, rng *zzverif.Rng, dir, tag stri
 	var sb strings.Builder
 	fmt.Fprintf(&sb, "push %d", n)
 	for i := 0; i < n; i++ {
-		fmt.Fprintf(&sb, " %s %s", c09ShowResps(reg.post[i]), c09ShowResps(reg.put[i]))
+		fmt.Fprintf(&sb, " %s %s", c09ShowResps(reg.gpost[i]), c09ShowResps(reg.gput[i]))
 	}
 	fmt.Fprintf(&sb, " %d", len(reg.sched))
 	for _, k := range reg.sched {
 		fmt.Fprintf(&sb, " %d", k)
 	}
-	fmt.Fprintf(&sb, " %s", c09ShowResps(reg.man))
+	fmt.Fprintf(&sb, " %s", c09ShowResps(reg.gman))
 	op := sb.String()
 	var evs []string
 	for _, e := range reg.events {
 		evs = append(evs, e.String())
-		out.Count(fmt.Sprintf("push_answer_%dxx", e.status/100))
+		if e.status == 0 {
+			out.Count("push_answer_none_transport_error_or_cancelled")
+		} else {
+			out.Count(fmt.Sprintf("push_answer_%dxx", e.status/100))
+		}
 		if e.status/100 == 3 && e.loc {
 			out.Count("push_answer_3xx_with_location")
 		}
